@@ -148,6 +148,7 @@ structure OpTrace where
   evs : List Ev
   res : OpRes
   bg : Option Nat
+  d : DState := {}        -- model side only: the driver fields before the operation
   deriving Repr, Inhabited
 
 def mkEnv (p : Panel) (sc : Scenario) : Env :=
@@ -165,7 +166,7 @@ def runOps (p : Panel) : List Op → Env → Option DState → List OpTrace
       | some acts =>
         let r := runActs e p.init acts
         match r.2.2.2 with
-        | .ok => { evs := r.1, res := .ok, bg := some r.2.2.1.bg } :: runOps p ops r.2.1 (some r.2.2.1)
+        | .ok => { evs := r.1, res := .ok, bg := some r.2.2.1.bg, d := p.init } :: runOps p ops r.2.1 (some r.2.2.1)
         | x => [{ evs := r.1, res := .ofRes x, bg := none }]
     | _, none => [{ evs := [], res := .unsup, bg := none }]
     | _, some d =>
@@ -173,7 +174,7 @@ def runOps (p : Panel) : List Op → Env → Option DState → List OpTrace
       | none => [{ evs := [], res := .unsup, bg := some d.bg }]
       | some acts =>
         let r := runActs e d acts
-        let t : OpTrace := { evs := r.1, res := .ofRes r.2.2.2, bg := some r.2.2.1.bg }
+        let t : OpTrace := { evs := r.1, res := .ofRes r.2.2.2, bg := some r.2.2.1.bg, d := d }
         match r.2.2.2 with
         | .ok | .err => t :: runOps p ops r.2.1 (some r.2.2.1)
         | _ => [t]
